@@ -35,6 +35,22 @@ def run_config(cfg, seed, tier, prop=PROPERTY):
     H = mk()
     res = Explorer(H, seed=seed).run()
     out = res.as_dict()
+    if prop == "C04" and out["violations"] and not any(v["rule"].startswith(("stab.", "live.")) for v in out["violations"]):
+        # the data path already violates C03: its violating transitions are not extended and the liveness queries were
+        # skipped, so stalls behind them would go unseen.  Second pass with a tolerant scoreboard.
+        mk1 = mk
+        def mk():
+            H2 = mk1()
+            H2.set_tolerant()
+            return H2
+        H = mk()
+        res2 = Explorer(H, seed=seed).run().as_dict()
+        out["violations"] += [v for v in res2["violations"] if v["rule"].startswith(("stab.", "live."))]
+        out["states"] += res2["states"]
+        out["transitions"] += res2["transitions"]
+        out["conformed"] += res2["conformed"]
+        out["exhaustive"] = out["exhaustive"] and res2["exhaustive"]
+        out["tolerant_second_pass"] = True
     keep = []
     for v in out["violations"]:
         v["property"] = "C03" if v["rule"].startswith(C03_RULES) else "C04"
@@ -80,4 +96,11 @@ def replay(rec, prop=PROPERTY):
     cyc = [tuple_deep(c) for c in rec["cycle"]] if rec.get("cycle") else None
     q = [q for q in H.live_queries if q[0] == rec["rule"]][0] if cyc else None
     rp = replay_stock(mk, tr, cyc, q)
+    if not rp["reproduced"] and prop == "C04":
+        # a violation found in the tolerant second pass of a C04 run (see run_config)
+        def mk2():
+            H2 = mk()
+            H2.set_tolerant()
+            return H2
+        rp = replay_stock(mk2, tr, cyc, q)
     return dict(cfg=rec["cfg"], rule=rec["rule"], reproduced=rp["reproduced"], err=rp["err"], path=rp["path"], cycles=rp["cycles"])
